@@ -70,6 +70,37 @@ int main(void)
         return 2;
     }
 
+    /* honest controls that must keep working */
+    san.n = 0;
+    tlv(&san, 0x82, "*.good.example", 14);
+    tlv(&san, 0x87, "\x0a\x00\x00\x01", 4);
+    tlv(&san, 0x81, "admin@good.example", 18);
+    mkcert(&subj, &san, &cert);
+    printf("-- honest control: SAN = { dNSName *.good.example, iPAddress "
+        "10.0.0.1, rfc822Name admin@good.example }\n");
+    if (validate(&cert, "www.good.example", NAME_TYPE_ANY, &ff, 1) != 0 ||
+        validate(&cert, "10.0.0.1", NAME_TYPE_ANY, &ff, 1) != 0 ||
+        validate(&cert, "admin@good.example", NAME_TYPE_ANY, &ff, 1) != 0 ||
+        validate(&cert, "a.b.good.example", NAME_TYPE_ANY, &ff, 1) == 0 ||
+        !handshake(&cert, "www.good.example", 0, 1) ||
+        !handshake(&cert, "10.0.0.1", 1, 1))
+    {
+        printf("honest control failed\n");
+        return 2;
+    }
+    /* a device certificate without SAN whose CN is its address (exact,
+       non-wildcard CN fallback) keeps working */
+    rdn(&subjW, OID_CN, sizeof(OID_CN), 0x0C, "10.0.0.1", 8);
+    mkcert(&subjW, NULL, &cert);
+    printf("-- honest control: no SAN, CN = \"10.0.0.1\"\n");
+    if (validate(&cert, "10.0.0.1", NAME_TYPE_ANY, &ff, 1) != 0 ||
+        validate(&cert, "10.0.0.2", NAME_TYPE_ANY, &ff, 1) == 0)
+    {
+        printf("honest control failed\n");
+        return 2;
+    }
+    subjW.n = 0;
+
     /* (a) wildcard dNSName vs. IPv4 literal */
     san.n = 0;
     tlv(&san, 0x82, "*.2.3.4", 7);
@@ -111,7 +142,9 @@ int main(void)
 
     if (!bad)
     {
-        printf("no violation observed\n");
+        printf("OK: IPv4-literal / e-mail expected names are only matched "
+            "against entries of their own kind; host-name wildcards, "
+            "iPAddress, rfc822Name and exact CN fallback still work\n");
     }
     return bad;
 }
